@@ -185,6 +185,10 @@ class Prop:
                     else:
                         items.append([ti, r.choice(VALID[kind])])
                 op = {"k": "trait_set", "items": items}
+                if r.random() < 0.3:
+                    # quiet: no handler is called for these assignments - and every
+                    # handler is called again for the next ordinary one
+                    op["quiet"] = r.choice(["trait_setq", "trait_set"])
             elif x < 0.76:
                 op = {"k": "read", "t": r.randrange(ntr)}
             elif x < 0.86:
@@ -378,11 +382,18 @@ class Prop:
                 seen = set()
                 items = [x for x in items if not (x[0] in seen or seen.add(x[0]))]
                 kwargs = {traits[ti]["name"]: v for ti, v in items}
-                _, e = sut(lambda: obj.trait_set(**kwargs))
+                quiet = op.get("quiet")
+                if quiet == "trait_setq":
+                    _, e = sut(lambda: obj.trait_setq(**kwargs))
+                elif quiet:
+                    _, e = sut(lambda: obj.trait_set(trait_change_notify=False, **kwargs))
+                else:
+                    _, e = sut(lambda: obj.trait_set(**kwargs))
                 rejected = False
                 for ti, v in items:
                     if self.is_valid(traits[ti]["kind"], v):
-                        self.model_assign(traits, stored, expected, i, ti, v, active, obj, Undefined)
+                        self.model_assign(traits, stored, expected, i, ti, v, active, obj, Undefined,
+                                          quiet=bool(quiet))
                     else:
                         rejected = True
                         break
@@ -590,13 +601,13 @@ class Prop:
         self.model_assign(traits, stored, expected, i, ti, v, active, obj, Undefined)
 
     @staticmethod
-    def model_assign(traits, stored, expected, origin, ti, v, active, obj, Undefined):
+    def model_assign(traits, stored, expected, origin, ti, v, active, obj, Undefined, quiet=False):
         """Update the model for an accepted assignment (already performed on the
         object) and record the expectation."""
         t = traits[ti]
         kind, mode = t["kind"], t["mode"]
         if kind in ("Event", "Button"):
-            expected.append((origin, ti, Undefined, v, True, frozenset(active)))
+            expected.append((origin, ti, Undefined, v, not quiet, frozenset(active)))
             return
         had = ti in stored
         old = stored[ti] if had else DEFAULT[kind]
@@ -624,6 +635,8 @@ class Prop:
             except Exception:      # noqa: BLE001 - comparison raises: only agreement is required
                 changed = None
         stored[ti] = new
+        if quiet:
+            changed = False
         expected.append((origin, ti, old if had else ("default", old), new, changed,
                          frozenset(active)))
 
